@@ -6,7 +6,9 @@ rows=[]
 for f in sorted(glob.glob(f'{HERE}/seeded/*/meta.json')):
     m=json.load(open(f))
     caught='; '.join(f"**{c['check']}** `{c['signature']}`" for c in m['caught_by'])
-    rows.append(f"| {m['id']} | {m['property']} | {m['change']} | {m['needs_to_manifest']} | {caught} | {m.get('note','')} |")
+    note=m.get('note','')
+    if m.get('retired'): note=(note+' ' if note else '')+'**'+m['retired']+'**'
+    rows.append(f"| {m['id']} | {m['property']} | {m['change']} | {m['needs_to_manifest']} | {caught} | {note} |")
 n=len(rows)
 missed=[json.load(open(f)) for f in sorted(glob.glob(f'{HERE}/seeded/*/meta.json'))]
 nm=sum(1 for m in missed if 'initially missed' in m.get('note',''))
